@@ -242,11 +242,294 @@ class Inliner:
         facts.fns[sid] = Fn(facts, rec)
         return sid
 
+    # ---- iterator pipelines as loops ------------------------------------------------------------------------------------------
+    # `from_fn(g).take_while(p).map(f).collect::<Result<Vec<_>, _>>()` (any sequence of the lazy, stateless-per-item adaptors below, built
+    # in the same function from closures or functions of the crate, ended by one of the consumers above or by `collect` into a Vec,
+    # Result<Vec, E> or Option<Vec>) is, by the definition of these adaptors, the loop
+    #     let mut v = Vec::new(); loop { let Some(x) = g() else break; if !p(&x) { break }; match f(x) { Ok(y) => v.push(y), Err(e) => return Err(e) } } Ok(v)
+    # It is built as one body (the adaptor objects themselves stay opaque values nobody looks at) and spliced in like a helper.
+    STAGES = {"map": 2, "take_while": 2, "filter": 2, "filter_map": 2, "map_while": 2, "inspect": 2, "skip_while": None}
+
+    def _fn_operand(self, d_caller, inst, raw, fop):
+        """-> (def path, instance id or None, is closure) of the crate function / closure an operand denotes"""
+        facts = self.facts
+        fdef = None
+        if fop.get("k") == "const" and fop.get("fn"):
+            fdef = fop["fn"]
+        elif fop.get("k") in ("copy", "move") and not fop["pl"]["p"]:
+            defs = [s_["rhs"] for b in raw["blocks"] for s_ in b["stmts"] if s_["s"] == "assign" and s_["lhs"] == {"l": fop["pl"]["l"], "p": []}]
+            if len(defs) == 1 and defs[0]["rv"] == "agg" and defs[0].get("closure"):
+                fdef = defs[0]["closure"]
+        if fdef is None or fdef not in facts.fns or not facts.fns[fdef].rec.get("local"):
+            return None
+        is_closure = "{closure#" in fdef
+        finst = None
+        if inst is not None and is_closure and fdef.startswith(d_caller + "::"):
+            want = inst["name"] + fdef[len(d_caller):]
+            c = [x for x in facts.instances_of(fdef) if x.get("name") == want]
+            finst = c[0]["id"] if len(c) == 1 else None
+        if finst is None:
+            c = [x for x in facts.instances_of(fdef) if x["kind"] == "item"]
+            finst = c[0]["id"] if len(c) == 1 else None
+        return fdef, finst, is_closure
+
+    def synth_chain(self, d_caller, inst, raw, t):
+        facts = self.facts
+        name = t.get("name")
+        if t.get("trait") != "std::iter::Iterator" or not t["args"]:
+            return None
+        gargs = t.get("gargs") or []
+        if name == "collect":
+            if len(t["args"]) != 1 or len(gargs) < 2:
+                return None
+            cty = gargs[1]
+            m = re.match(r"^std::result::Result<std::vec::Vec<(.+)>, (.+)>$", cty)
+            if m:
+                wrap, elem = ("std::result::Result", "Ok", "Err"), m.group(1)
+            else:
+                m = re.match(r"^std::option::Option<std::vec::Vec<(.+)>>$", cty)
+                if m:
+                    wrap, elem = ("std::option::Option", "Some", "None"), m.group(1)
+                else:
+                    m = re.match(r"^std::vec::Vec<(.+)>$", cty)
+                    if not m:
+                        return None
+                    wrap, elem = None, m.group(1)
+        elif name in self.LOOPS and len(t["args"]) == self.LOOPS[name]:
+            pass
+        else:
+            return None
+        # the pipeline, from the consumer back to the source
+        def def_call(op):
+            if op.get("k") not in ("copy", "move") or op["pl"]["p"]:
+                return None
+            l = op["pl"]["l"]
+            ds = [b["term"] for b in raw["blocks"] if b["term"]["t"] == "call" and b["term"]["dest"] == {"l": l, "p": []}]
+            if len(ds) != 1 or any(s_["s"] == "assign" and s_["lhs"]["l"] == l and not s_["lhs"]["p"] for b in raw["blocks"] for s_ in b["stmts"]):
+                return None
+            return ds[0]
+        stages = []
+        cur = t["args"][0]
+        src = None
+        while True:
+            c = def_call(cur)
+            if c is None:
+                break
+            if c.get("trait") == "std::iter::Iterator" and c.get("name") in self.STAGES and self.STAGES[c["name"]] == len(c["args"]):
+                fo = self._fn_operand(d_caller, inst, raw, c["args"][1])
+                if fo is None:
+                    return None
+                stages.append((c["name"], c["args"][1], fo, c.get("gargs") or []))
+                cur = c["args"][0]
+                continue
+            if (c.get("res") or c.get("callee")) == "std::iter::from_fn" and len(c["args"]) == 1:
+                fo = self._fn_operand(d_caller, inst, raw, c["args"][0])
+                if fo is None:
+                    return None
+                src = ("from_fn", c["args"][0], fo, c.get("gargs") or [])
+            break
+        stages.reverse()
+        if not stages and src is None and name != "collect":
+            return None                                     # (the plain consumers over an opaque iterator: the older builder)
+        if not stages and src is None:
+            return None                                     # collecting an iterator nobody built here: nothing to read
+        line = t.get("line", 0)
+        L = lambda ty, nm=None: {"ty": ty, "adt": None, "name": nm, "mut": True}
+        pl = lambda l, *proj: {"l": l, "p": list(proj)}
+        mv = lambda l, *proj: {"k": "move", "pl": pl(l, *proj)}
+        cp = lambda l, *proj: {"k": "copy", "pl": pl(l, *proj)}
+        fld = lambda k: {"f": k, "n": str(k), "ty": "?"}
+        asg = lambda lhs, rhs: {"s": "assign", "line": line, "exp": False, "lhs": lhs, "rhs": rhs, "syn": True}
+        use = lambda op: {"rv": "use", "op": op}
+        unit = {"k": "const", "ty": "()", "v": "()"}
+        dty = raw["locals"][t["dest"]["l"]]["ty"] if not t["dest"]["p"] and t["dest"]["l"] < len(raw["locals"]) else "?"
+        locs = [L(dty)]
+        args = []                                           # operands of the caller handed to the body, in parameter order
+        def param(ty, op, nm=None):
+            locs.append(L(ty, nm)); args.append(op)
+            return len(locs) - 1
+        if src is not None:
+            SRC = param(src[3][1] if len(src[3]) > 1 else "?", src[1], "source")
+            item_ty = src[3][0] if src[3] else "?"
+        else:
+            self_ty = (stages[0][3][0] if stages and stages[0][3] else "?")
+            SRC = param(self_ty, cur, "iter")
+            item_ty = "?"
+        FN = []
+        for (sn, fop, fo, ga) in stages:
+            FN.append(param(ga[-1] if ga else "?", fop, "f"))
+        consumer_args = []
+        if name in self.LOOPS:
+            has_acc = name in ("try_fold", "fold")
+            is_try = name in ("try_fold", "try_for_each")
+            cfo = self._fn_operand(d_caller, inst, raw, t["args"][-1])
+            if cfo is None:
+                return None
+            acc_ty = gargs[1] if has_acc and len(gargs) > 1 else "()"
+            f_ty = gargs[2] if has_acc and len(gargs) > 2 else (gargs[1] if len(gargs) > 1 else "?")
+            r_ty = (gargs[3] if name == "try_fold" and len(gargs) > 3 else (gargs[2] if name == "try_for_each" and len(gargs) > 2 else (acc_ty if has_acc else "()")))
+            if is_try:
+                if r_ty.startswith("std::result::Result<"):
+                    radt, cont, brk = "std::result::Result", (0, "Ok"), (1, "Err")
+                elif r_ty.startswith("std::option::Option<"):
+                    radt, cont, brk = "std::option::Option", (1, "Some"), (0, "None")
+                elif r_ty.startswith("std::ops::ControlFlow<"):
+                    radt, cont, brk = "std::ops::ControlFlow", (0, "Continue"), (1, "Break")
+                else:
+                    return None
+            INIT = param(acc_ty, t["args"][1], "init") if has_acc else None
+            CF = param(f_ty, t["args"][-1], "f")
+        argc = len(locs) - 1
+        def tmp(ty, nm=None):
+            locs.append(L(ty, nm))
+            return len(locs) - 1
+        blocks = []
+        def blk(stmts=None, term=None):
+            blocks.append({"cleanup": False, "stmts": stmts or [], "term": dict(term or {"t": "unreachable"}, line=line, exp=False)})
+            return len(blocks) - 1
+        def setterm(b, term):
+            blocks[b]["term"] = dict(term, line=line, exp=False)
+        def call_fn(b, fo, floc, f_ty, ops, dest, target):
+            """block b: dest = f(ops..)"""
+            fdef, finst, is_closure = fo
+            call = {"t": "call", "callee": "std::ops::FnMut::call_mut", "callee_krate": "core", "gargs": [f_ty], "trait": "std::ops::FnMut", "self_ty": f_ty, "name": "call_mut",
+                    "res": fdef, "res_krate": "tiny_http", "res_kind": "item", "res_name": fdef, "dest": pl(dest), "target": target, "unwind": "continue", "fn_exp": False, "syn": True}
+            if is_closure:
+                TUP, FREF = tmp("(?,)"), tmp("&mut " + f_ty)
+                blocks[b]["stmts"] += [asg(pl(TUP), {"rv": "agg", "agg": "tuple", "ops": ops}), asg(pl(FREF), {"rv": "ref", "mut": True, "pl": pl(floc)})]
+                call.update(args=[mv(FREF), mv(TUP)], arg_tys=["&mut " + f_ty, "(?,)"])
+            else:
+                call.update(args=ops, arg_tys=["?"] * len(ops), callee=fdef, name=fdef.rsplit("::", 1)[-1])
+                call.pop("trait")
+            if finst is not None:
+                call["syn_to"] = finst
+            setterm(b, call)
+        OPT_V = [[0, "None"], [1, "Some"]]
+        # fixed blocks
+        ENTRY, HEAD, EXH, RET, DEAD = blk(), blk(), blk(), blk([], {"t": "return"}), blk([], {"t": "unreachable"})
+        # entry: the accumulator
+        if name == "collect":
+            VEC = tmp("std::vec::Vec<%s>" % elem, "vec")
+            setterm(ENTRY, {"t": "call", "callee": "std::vec::Vec::<T>::new", "callee_krate": "alloc", "gargs": [elem], "name": "new", "res": "std::vec::Vec::<T>::new", "res_krate": "alloc",
+                            "res_kind": "item", "res_name": "std::vec::Vec::<%s>::new" % elem, "args": [], "arg_tys": [], "dest": pl(VEC), "target": HEAD, "unwind": "continue", "fn_exp": False, "syn": True})
+        else:
+            ACC = tmp(acc_ty, "acc")
+            if has_acc:
+                blocks[ENTRY]["stmts"].append(asg(pl(ACC), use(mv(INIT))))
+            setterm(ENTRY, {"t": "goto", "target": HEAD})
+        # head: the next item of the source
+        OPT, D0 = tmp("std::option::Option<%s>" % item_ty, "item"), tmp("isize")
+        SW = blk()
+        if src is not None:
+            call_fn(HEAD, src[2], SRC, locs[SRC]["ty"], [], OPT, SW)
+        else:
+            IREF = tmp("&mut " + locs[SRC]["ty"])
+            nres = "<%s as std::iter::Iterator>::next" % locs[SRC]["ty"]
+            blocks[HEAD]["stmts"].append(asg(pl(IREF), {"rv": "ref", "mut": True, "pl": pl(SRC)}))
+            setterm(HEAD, {"t": "call", "callee": "std::iter::Iterator::next", "callee_krate": "core", "gargs": [locs[SRC]["ty"]], "trait": "std::iter::Iterator", "self_ty": locs[SRC]["ty"],
+                           "name": "next", "res": nres, "res_krate": "core", "res_kind": "item", "res_name": nres, "args": [mv(IREF)], "arg_tys": ["&mut " + locs[SRC]["ty"]],
+                           "dest": pl(OPT), "target": SW, "unwind": "continue", "fn_exp": False, "syn": True})
+        first = blk()
+        blocks[SW]["stmts"].append(asg(pl(D0), {"rv": "discr", "pl": pl(OPT), "ty": locs[OPT]["ty"], "adt": "std::option::Option", "variants": OPT_V}))
+        setterm(SW, {"t": "switch", "discr": mv(D0), "dty": "isize", "targets": [[0, EXH], [1, first]], "otherwise": DEAD})
+        V = tmp(item_ty, "x")
+        blocks[first]["stmts"].append(asg(pl(V), use(mv(OPT, {"d": "Some"}, fld(0)))))
+        curb = first
+        for k, (sn, fop, fo, ga) in enumerate(stages):
+            f_ty = locs[FN[k]]["ty"]
+            nxt = blk()
+            if sn == "map":
+                V2 = tmp(ga[1] if len(ga) > 1 else "?", "y")
+                call_fn(curb, fo, FN[k], f_ty, [mv(V)], V2, nxt)
+                V = V2
+            elif sn == "inspect":
+                R, U = tmp("&?"), tmp("()")
+                blocks[curb]["stmts"].append(asg(pl(R), {"rv": "ref", "mut": False, "pl": pl(V)}))
+                call_fn(curb, fo, FN[k], f_ty, [mv(R)], U, nxt)
+            elif sn in ("take_while", "filter"):
+                R, B = tmp("&?"), tmp("bool")
+                blocks[curb]["stmts"].append(asg(pl(R), {"rv": "ref", "mut": False, "pl": pl(V)}))
+                tst = blk()
+                call_fn(curb, fo, FN[k], f_ty, [mv(R)], B, tst)
+                setterm(tst, {"t": "switch", "discr": mv(B), "dty": "bool", "targets": [[0, EXH if sn == "take_while" else HEAD]], "otherwise": nxt})
+            elif sn in ("filter_map", "map_while"):
+                oty = "std::option::Option<%s>" % (ga[1] if len(ga) > 1 else "?")
+                O, D = tmp(oty), tmp("isize")
+                tst = blk()
+                call_fn(curb, fo, FN[k], f_ty, [mv(V)], O, tst)
+                blocks[tst]["stmts"].append(asg(pl(D), {"rv": "discr", "pl": pl(O), "ty": oty, "adt": "std::option::Option", "variants": OPT_V}))
+                setterm(tst, {"t": "switch", "discr": mv(D), "dty": "isize", "targets": [[0, EXH if sn == "map_while" else HEAD], [1, nxt]], "otherwise": DEAD})
+                V2 = tmp(ga[1] if len(ga) > 1 else "?", "y")
+                blocks[nxt]["stmts"].append(asg(pl(V2), use(mv(O, {"d": "Some"}, fld(0)))))
+                V = V2
+            else:
+                return None
+            curb = nxt
+        # the consumer's step on the item V, in block curb
+        if name == "collect":
+            def push(b, op, target):
+                VR, U = tmp("&mut std::vec::Vec<%s>" % elem), tmp("()")
+                blocks[b]["stmts"].append(asg(pl(VR), {"rv": "ref", "mut": True, "pl": pl(VEC)}))
+                setterm(b, {"t": "call", "callee": "std::vec::Vec::<T, A>::push", "callee_krate": "alloc", "gargs": [elem, "std::alloc::Global"], "name": "push",
+                            "res": "std::vec::Vec::<T, A>::push", "res_krate": "alloc", "res_kind": "item", "res_name": "std::vec::Vec::<%s>::push" % elem,
+                            "args": [mv(VR), op], "arg_tys": ["&mut std::vec::Vec<%s>" % elem, elem], "dest": pl(U), "target": target, "unwind": "continue", "fn_exp": False, "syn": True})
+            if wrap is None:
+                push(curb, mv(V), HEAD)
+                blocks[EXH]["stmts"].append(asg(pl(0), use(mv(VEC))))
+            else:
+                adt, good, bad = wrap
+                variants = [[0, "Ok"], [1, "Err"]] if adt.endswith("Result") else OPT_V
+                gi = [i for i, n_ in variants if n_ == good][0]
+                bi = [i for i, n_ in variants if n_ == bad][0]
+                D = tmp("isize")
+                okb, errb = blk(), blk()
+                blocks[curb]["stmts"].append(asg(pl(D), {"rv": "discr", "pl": pl(V), "ty": locs[V]["ty"], "adt": adt, "variants": variants}))
+                setterm(curb, {"t": "switch", "discr": mv(D), "dty": "isize", "targets": [[gi, okb], [bi, errb]], "otherwise": DEAD})
+                push(okb, mv(V, {"d": good}, fld(0)), HEAD)
+                if bad == "Err":
+                    blocks[errb]["stmts"].append(asg(pl(0), {"rv": "agg", "agg": "adt", "adt": adt, "variant": "Err", "fields": ["0"], "ops": [mv(V, {"d": "Err"}, fld(0))]}))
+                else:
+                    blocks[errb]["stmts"].append(asg(pl(0), {"rv": "agg", "agg": "adt", "adt": adt, "variant": "None", "fields": [], "ops": []}))
+                setterm(errb, {"t": "goto", "target": RET})
+                blocks[EXH]["stmts"].append(asg(pl(0), {"rv": "agg", "agg": "adt", "adt": adt, "variant": good, "fields": ["0"], "ops": [mv(VEC)]}))
+        else:
+            RES = tmp(r_ty if is_try else acc_ty)
+            after = blk()
+            call_fn(curb, cfo, CF, f_ty, ([mv(ACC)] if has_acc else []) + [mv(V)], RES, after)
+            if is_try:
+                D = tmp("isize")
+                goon, stop = blk(), blk()
+                blocks[after]["stmts"].append(asg(pl(D), {"rv": "discr", "pl": pl(RES), "ty": r_ty, "adt": radt, "variants": sorted([list(cont), list(brk)])}))
+                setterm(after, {"t": "switch", "discr": mv(D), "dty": "isize", "targets": [[cont[0], goon], [brk[0], stop]], "otherwise": DEAD})
+                if has_acc:
+                    blocks[goon]["stmts"].append(asg(pl(ACC), use(mv(RES, {"d": cont[1]}, fld(0)))))
+                setterm(goon, {"t": "goto", "target": HEAD})
+                blocks[stop]["stmts"].append(asg(pl(0), use(mv(RES))))
+                setterm(stop, {"t": "goto", "target": RET})
+                blocks[EXH]["stmts"].append(asg(pl(0), {"rv": "agg", "agg": "adt", "adt": radt, "variant": cont[1], "fields": ["0"], "ops": [mv(ACC) if has_acc else unit]}))
+            else:
+                if has_acc:
+                    blocks[after]["stmts"].append(asg(pl(ACC), use(mv(RES))))
+                setterm(after, {"t": "goto", "target": HEAD})
+                blocks[EXH]["stmts"].append(asg(pl(0), use(mv(ACC) if has_acc else unit)))
+        setterm(EXH, {"t": "goto", "target": RET})
+        self.nsyn = getattr(self, "nsyn", 0) + 1
+        sid = "<loop of %s>::%s#%d" % (d_caller, name, self.nsyn)
+        mir = {"blocks": blocks, "locals": locs, "argc": argc, "file": raw["file"], "line": line}
+        rec = {"id": sid, "local": False, "synthetic": True, "def_kind": "Fn", "promoted": [], "mir": mir, "vis_pub": False}
+        facts.fns[sid] = Fn(facts, rec)
+        self._syn_args = args
+        return sid
+
     def synthesize(self, d_caller, inst, raw, t):
         facts = self.facts
         name = t.get("name")
+        self._syn_args = None
         if t.get("res_kind") == "virtual":
             return self.synth_dispatch(d_caller, inst, raw, t)
+        ch = self.synth_chain(d_caller, inst, raw, t)
+        if ch is not None:
+            return ch
         if t.get("trait") != "std::iter::Iterator" or name not in self.LOOPS or len(t["args"]) != self.LOOPS[name]:
             return None
         fop = t["args"][-1]
@@ -420,6 +703,10 @@ class Inliner:
             craw = cg.mir
             nb = self.blocks[bb0 + i]
             nt = nb["term"]
+            if syn is not None and getattr(self, "_syn_args", None) is not None:
+                # a body built from a whole pipeline takes the pipeline's source and functions, not the adaptor object
+                nt = nb["term"] = dict(nt, args=[_ren_op(a, lb, pb) for a in self._syn_args])
+                self._syn_args = None
             args = nt["args"]
             argc = craw["argc"]
             clb_next = len(self.locals)
